@@ -743,7 +743,8 @@ def run_C17(ctx):
     ctx.tlc_phase("layouts-type-form-queries", "Session", consts, invariants=["Closed"], translate=("typeform", "steps_typeform"),
                   judge_fn=("typeform", "judge_typeform"), require_actions=["TypeFormOp", "WrapRegular", "WrapListOffset", "WrapBitMasked"],
                   sample_cases=(150000 if q else None), timeout=1500)
-    consts = session_consts(OpSet='{"typeform","aux"}', LeafSet=leafset(2), MaxDepth="2", MaxLen="2", MaxNodes="4",
+    # (five nodes: a union of a two-field record with something else needs leaf, leaf, record, leaf, union)
+    consts = session_consts(OpSet='{"typeform","aux"}', LeafSet=leafset(1) if q else leafset(2), MaxDepth="2", MaxLen="1" if q else "2", MaxNodes="5",
                             Classes='{"ListOffset","IndexedOption","Record","Union","Regular"}')
     ctx.tlc_phase("records-unions-type-form-queries", "Session", consts, invariants=["Closed"], constraint="SmallEnough",
                   translate=("typeform", "steps_typeform"), judge_fn=("typeform", "judge_typeform"),
